@@ -1,7 +1,7 @@
 (* C12 — correspondence / property evaluation on histories observed on the
    implementation.  Executable only. *)
 From Coq Require Import List ZArith Bool.
-From GZ Require Export Lib.CheckLib C12.Model C12.Concrete C12.Api C12.Client C12.Lin C12.Deliver.
+From GZ Require Export Lib.CheckLib C12.Model C12.Concrete C12.Api C12.Client C12.Lin C12.Deliver C12.Ticker.
 From GZ Require C16.ModelW.
 Import ListNotations.
 Open Scope Z_scope.
@@ -29,7 +29,18 @@ Inductive case :=
 (* free-running goroutines: stamped calls (all accepted) and ticks with their callbacks *)
 | CFree (n i : Z) (ops : list ev) (ticks : list tk)
 (* two wheels side by side: each one's history, the other's operations replaced by a no-op *)
-| CBoth (a b : case).
+| CBoth (a b : case)
+(* the wheel through its public API with the VALUE delivered by every tick made explicit *)
+| CStamped (n i : Z) (ops : list sop) (obs : list (fired * res))
+(* timex.NewFakeTicker: per started operation, the operations that completed and how *)
+| CTicker (ops : list tkop) (obs : list (list (Z * fout)))
+(* timex.NewTicker: ticks received before Stop, stamps increasing, ticks received after Stop,
+   did a second Stop panic *)
+| CRealTicker (got : Z) (increasing : bool) (after_stop : Z) (panicked : bool)
+(* the implementation did not complete the history: a call into the wheel did not return (the run
+   loop no longer takes requests) or its callbacks never came to rest; [c] = the history with the
+   observations of the operations completed before *)
+| CStuck (c : case).
 
 Definition canon (fs : list fired) : list fired := map sort_pairs fs.
 
@@ -191,6 +202,29 @@ Fixpoint agrees (c : case) : bool :=
   | CReact n i hold rc ops obs =>
     list_eqb fre_eqb (rrun acstep hold (react_of rc) (mkD (acinit n i) [] []) ops) obs
   | CBoth a b => agrees a && agrees b
+  | CStamped n i ops obs =>
+    list_eqb fr_eqb (srun (ainit n i) ops) obs
+    && list_eqb pairs_eqb (canon (crun (cinit n i) (requests (map erase ops)))) (canon (reached (map erase ops) obs))
+  | CTicker ops obs =>
+    list_eqb (list_eqb done_eqb) (map sort_done (frun finit 0 ops)) (map sort_done obs)
+  | CRealTicker got incr after panicked => (got =? 3) && incr && (after <=? 1) && negb panicked
+  | CStuck _ => false    (* every operation of the model returns *)
+  end.
+
+(* the history lies inside the property's quantifier (delays of at least one interval, or rejected) *)
+Fixpoint in_scope (c : case) : bool :=
+  match c with
+  | CWheel n i ops _ => forallb (aop_in_scope i) ops
+  | CCache _ n i h => history_in_scope i h
+  | CTrace n i segs _ => segs_in_scope i segs
+  | CFree n i ops _ => free_in_scope i ops
+  | CGated n i _ ops _ => forallb (aop_in_scope i) (calls ops)
+  | CReact n i _ rc ops _ =>
+    forallb (aop_in_scope i) (calls ops) && forallb (fun p => aop_in_scope i (snd p)) rc
+  | CBoth a b => in_scope a && in_scope b
+  | CStamped n i ops _ => forallb (aop_in_scope i) (map erase ops)
+  | CStuck c => in_scope c
+  | _ => true
   end.
 
 (* the property, on the implementation's own observations *)
@@ -248,6 +282,16 @@ Fixpoint prop_ok (c : case) : bool :=
                  (combine ops obs)
     else true
   | CBoth a b => prop_ok a && prop_ok b
+  | CStamped n i ops obs =>
+    (* whatever the ticker's channel delivered *)
+    if forallb (aop_in_scope i) (map erase ops)
+    then list_eqb fr_eqb (asp_run i (false, []) (map erase ops)) obs
+    else true
+  | CTicker ops obs => ticker_ok ops obs
+  | CRealTicker got incr after panicked => (got =? 3) && incr && (after <=? 1) && negb panicked
+  | CStuck c =>
+    (* a wheel that no longer takes ticks or calls cannot fire its timers at their due ticks *)
+    negb (in_scope c)
   end.
 
 Fixpoint model_obs (c : case) : list fired :=
@@ -262,4 +306,8 @@ Fixpoint model_obs (c : case) : list fired :=
   | CReact n i hold rc ops _ =>
     canon (map (fun x => fst (fst x)) (rrun astep hold (react_of rc) (mkD (ainit n i) [] []) ops))
   | CBoth a b => model_obs a ++ model_obs b
+  | CStamped n i ops _ => canon (map fst (srun (ainit n i) ops))
+  | CTicker _ _ => []
+  | CRealTicker _ _ _ _ => []
+  | CStuck c => model_obs c
   end.
